@@ -50,6 +50,49 @@ def extract_scenario(scn_file, sid):
     return "".join(out)
 
 
+def conf_projection(recs):
+    """What C12 says must not depend on the schedule: the accepted output bytes and the handler invocations with their arguments."""
+    calls = []
+
+    def walk(evs):
+        for e in evs:
+            if e["k"] == "cmd":
+                calls.append(("cmd", e["kind"], e["c"], e["fsm"], tuple(e["data"]), e["size"], e["aux"], e["ret"]))
+            elif e["k"] == "vw":
+                calls.append(("vw", e["c"], e["v"], e["ws"], e["r"]))
+            elif e["k"] == "vr":
+                calls.append(("vr", e["c"], e["v"], e["r"]))
+    for r in recs:
+        if r["e"] == "api":
+            walk(r["ev"])
+    return output_bytes(recs), calls
+
+
+def conf_compare(trace_files):
+    """Twin scenarios (same conf key, different readiness schedules, no events in play) must agree literally. Returns synthetic bad records."""
+    groups = {}
+    for tf in trace_files:
+        for recs in split_scenarios(read_trace(tf)):
+            tag = [r["t"] for r in recs if r["e"] == "env" and r.get("f") == "note" and str(r.get("t", "")).startswith("conf_")]
+            if not tag:
+                continue
+            _, key, variant = tag[0].split("_")
+            groups.setdefault(key, {})[int(variant)] = (recs[0]["sid"], tf, conf_projection(recs))
+    out = []
+    for key, vs in groups.items():
+        if 0 not in vs:
+            continue
+        ref_sid, ref_tf, ref = vs[0]
+        for v, (sid, tf, proj) in vs.items():
+            if v == 0 or proj == ref:
+                continue
+            what = "output bytes" if proj[0] != ref[0] else "handler invocations"
+            detail = [list(proj[0][:80]), list(ref[0][:80])] if proj[0] != ref[0] else [str(proj[1][:6]), str(ref[1][:6])]
+            out.append({"p": "C12", "why": ["differs from the eager schedule of the same input in its " + what, detail], "sid": sid, "ref_sid": ref_sid,
+                        "at": 0, "trace": tf, "ref_trace": ref_tf, "conf_key": key})
+    return out
+
+
 def has_tag(bad, pid):
     return pid in str(bad.get("p", "")).split(",")
 
@@ -76,7 +119,7 @@ def confirm(exes, scn_text, pid, workdir):
     n = 0
     for _ in range(2):
         res = run_scenario_file(exes, p, workdir)
-        if any(has_tag(b, pid) for b in res["mon"]["bad"]):
+        if any(has_tag(b, pid) for b in res["mon"]["bad"]) or (pid == "C12" and conf_compare([os.path.join(workdir, "replay.ndjson")])):
             n += 1
     return n == 2
 
@@ -133,6 +176,14 @@ def check_property(pid, tier, seed):
             for b in r["mon"]["bad"]:
                 b["scn"] = j["scn"]
                 bads.append(b)
+        if pid == "C12":
+            bad_sids = {(b["scn"], b["sid"]) for b in bads}
+            for cb in conf_compare([j["trace"] for j in batches]):
+                cb["scn"] = cb["trace"].replace(".ndjson", ".scn")
+                cb["ref_scn"] = cb["ref_trace"].replace(".ndjson", ".scn")
+                if (cb["ref_scn"], cb["ref_sid"]) in bad_sids:
+                    continue               # the eager twin itself misbehaves: not a statement about schedules
+                bads.append(cb)
         mine = [b for b in bads if has_tag(b, pid)]
         others = [b for b in bads if not has_tag(b, pid)]
         # ---- verdict
@@ -145,6 +196,8 @@ def check_property(pid, tier, seed):
                 continue
             seen_sid.add(key)
             text = extract_scenario(b["scn"], b["sid"])
+            if "ref_sid" in b:
+                text = extract_scenario(b["ref_scn"], b["ref_sid"]) + text
             fp = fingerprint(b)
             hit = [k for k in known if k["p"] == pid and k["fp"] == fp]
             if hit:
@@ -220,6 +273,8 @@ def replay(pid, path):
         exes.pop("noproj", None)
         res = run_scenario_file(exes, path, work)
         mine = [b for b in res["mon"]["bad"] if has_tag(b, pid)]
+        if pid == "C12":
+            mine += conf_compare([os.path.join(work, "replay.ndjson")])
         print(json.dumps({"bad": res["mon"]["bad"], "drift": res["impl"]["drift"][:2]}, indent=1)[:4000])
         if mine:
             print("VIOLATION property=%s replay=%s" % (pid, path))
@@ -253,6 +308,10 @@ def main(argv):
         if pid not in props.PROPS:
             print("unknown property", pid)
             return 2
+        if pid == "C17":
+            import c17
+            import driver as me
+            return c17.check(tier, seed, me)
         return check_property(pid, tier, seed)
     except MachineryError as e:
         print("MACHINERY FAILURE:", e)
